@@ -31,8 +31,8 @@ size_t g_newobj;      /* object id of the most recent allocation */
 size_t g_allocs, g_frees, g_reallocs;
 _Bool  g_watch_new;   /* harness choice: the watched buffer is the first allocation made during the call */
 
-#define IS_WATCH(e) (__CPROVER_POINTER_OBJECT(e) == g_wobj && \
-                     __CPROVER_POINTER_OFFSET(e) == (ssize_t)(g_wp * sizeof(struct Elem)))
+#define IS_WATCH(e) (__CPROVER_POINTER_OBJECT(e) == g_wobj && __CPROVER_POINTER_OFFSET(e) >= 0 && \
+                     (size_t)__CPROVER_POINTER_OFFSET(e) / sizeof(struct Elem) == g_wp)
 #define GHOST_ELEM g_dtor_calls, g_ctor_calls, g_asgn_calls, g_reloc, g_reloc_obj, g_reloc_idx, \
                    g_reloc_count, g_freed_w, g_newobj, g_allocs, g_frees, g_reallocs, g_wobj
 
@@ -74,18 +74,18 @@ static void *verif_malloc(size_t n) {
   __CPROVER_assume(p != 0);
   g_newobj = __CPROVER_POINTER_OBJECT(p);
   g_allocs++;
-  if (g_watch_new && g_allocs == 1) g_wobj = g_newobj;
+  if (g_watch_new && g_allocs == 1) g_wobj = g_newobj; else __CPROVER_assume(g_wobj != g_newobj);
   if (g_np < n / sizeof(struct Elem)) __CPROVER_assume(((struct Elem *)p)[g_np].life == RAW);
   return p;
 }
 static void verif_free(void *p) {
   if (p != 0) {
     g_frees++;
-    if (__CPROVER_POINTER_OBJECT(p) == g_wobj) {
+    if (__CPROVER_POINTER_OBJECT(p) == g_wobj && g_wp < __CPROVER_OBJECT_SIZE(p) / sizeof(struct Elem)) {
       __CPROVER_assert(((struct Elem *)p)[g_wp].life != LIVE || (g_reloc && g_dtor_calls == 0),
                        "C09 no live element is abandoned when a buffer is freed");
-      g_freed_w = 1;
     }
+    if (__CPROVER_POINTER_OBJECT(p) == g_wobj) g_freed_w = 1;
   }
   free(p);
 }
